@@ -171,6 +171,8 @@ fn case_day_after(pred: i64, day: i64, use_dt: bool, acc: &mut Acc) {
     };
     acc.transitions += 2;
     acc.states += 1;
+    // the sweep evaluates the whole case of the predecessor (read back and construct) before the anchor
+    case_day(&Walker::at(pred), use_dt, &mut Acc::default());
     let _ = read(pred);
     let got = read(day);
     let (ey, em, ed) = cal::ymd(day);
@@ -216,6 +218,12 @@ fn anchor_probe(pred: i64, use_dt: bool, acc: &mut Acc) {
     acc.transitions += 1;
     if got != Out::Val((2022, 5, 2)) {
         acc.violation(if use_dt { "DateTime::as_ymd" } else { "Date::as_ymd" }, "readback-depends-on-the-previous-call", json!({"day": ANCHOR_DAY, "pred": pred, "datetime": use_dt}), "(2022, 5, 2)".into(), got.show());
+    }
+    // and in the other direction: a leap day that exists and one that does not
+    acc.transitions += 2;
+    let made = if use_dt { call(|| (DateTime::from_ymd(2024, 2, 29).is_ok(), DateTime::from_ymd(2023, 2, 29).is_ok())) } else { call(|| (Date::from_ymd(2024, 2, 29).is_ok(), Date::from_ymd(2023, 2, 29).is_ok())) };
+    if made != Out::Val((true, false)) {
+        acc.violation(if use_dt { "DateTime::from_ymd" } else { "Date::from_ymd" }, "construction-depends-on-the-previous-call", json!({"day": ANCHOR_DAY, "pred": pred, "datetime": use_dt}), "2024-02-29 accepted, 2023-02-29 refused".into(), made.show());
     }
 }
 
